@@ -126,6 +126,107 @@ recorder!(ProbePop, visit_array_pop_expr, &ArrayPopExpr, "PopExpr");
 recorder!(ProbeIdent, visit_identifier, &WithRange<Identifier>, "Ident");
 recorder!(ProbeVarName, visit_variable_name, WithRange<&VariableName>, "VarName");
 
+// Partial recorders: they override only SOME leaf callbacks, so the trait's own default leaves
+// (which return the default value) are folded in between - the shape of every real analysis.
+pub struct LitOnly(pub Rec);
+impl Visit for LitOnly {
+    type Output = Lst;
+    type Error = Injected;
+}
+impl VisitExpr for LitOnly {
+    fn visit_literal_expression(&mut self, e: &WithRange<LiteralExpression>) -> visit::Result<Self> {
+        self.0.hit(lit_text(&e.0))
+    }
+}
+pub struct OpsOnly(pub Rec);
+impl Visit for OpsOnly {
+    type Output = Lst;
+    type Error = Injected;
+}
+impl VisitExpr for OpsOnly {
+    fn visit_poetic_number_literal_elem(&mut self, p: &PoeticNumberLiteralElem) -> visit::Result<Self> {
+        let t = match p {
+            PoeticNumberLiteralElem::Word(w) => format!("poetic:word:{}", w),
+            PoeticNumberLiteralElem::WordSuffix(w) => format!("poetic:suffix:{}", w),
+            PoeticNumberLiteralElem::Dot => "poetic:dot".to_string(),
+        };
+        self.0.hit(t)
+    }
+    fn visit_binary_operator(&mut self, o: BinaryOperator) -> visit::Result<Self> {
+        self.0.hit(format!("op:{:?}", o))
+    }
+    fn visit_unary_operator(&mut self, o: UnaryOperator) -> visit::Result<Self> {
+        self.0.hit(format!("un:{:?}", o))
+    }
+}
+pub struct IdOnly(pub Rec);
+impl Visit for IdOnly {
+    type Output = Lst;
+    type Error = Injected;
+}
+impl VisitExpr for IdOnly {
+    fn visit_pronoun(&mut self, _: SourceRange) -> visit::Result<Self> {
+        self.0.hit("pronoun".to_string())
+    }
+    fn visit_simple_identifier(&mut self, n: WithRange<&SimpleIdentifier>) -> visit::Result<Self> {
+        self.0.hit(format!("simple:{}", (n.0).0))
+    }
+    fn visit_common_identifier(&mut self, n: WithRange<&CommonIdentifier>) -> visit::Result<Self> {
+        self.0.hit(format!("common:{} {}", (n.0).0, (n.0).1))
+    }
+    fn visit_proper_identifier(&mut self, n: WithRange<&ProperIdentifier>) -> visit::Result<Self> {
+        self.0.hit(format!("proper:{}", (n.0).0.join(" ")))
+    }
+}
+
+/// An output whose default is NOT neutral: it shows where a fold started "from the default".
+#[derive(Clone, Debug, PartialEq)]
+pub struct Marked(pub Vec<String>);
+impl Default for Marked {
+    fn default() -> Self {
+        Marked(vec!["D".to_string()])
+    }
+}
+impl Combine for Marked {
+    fn combine(mut self, other: Self) -> Self {
+        self.0.extend(other.0);
+        self
+    }
+}
+/// leaf recorder with the marked output (identifier and literal leaves only; the rest are default leaves)
+pub struct MarkedRecorder(pub Vec<String>);
+impl Visit for MarkedRecorder {
+    type Output = Marked;
+    type Error = Injected;
+}
+impl VisitExpr for MarkedRecorder {
+    fn visit_literal_expression(&mut self, e: &WithRange<LiteralExpression>) -> visit::Result<Self> {
+        let t = lit_text(&e.0);
+        self.0.push(t.clone());
+        Ok(Marked(vec![t]))
+    }
+    fn visit_simple_identifier(&mut self, n: WithRange<&SimpleIdentifier>) -> visit::Result<Self> {
+        let t = format!("simple:{}", (n.0).0);
+        self.0.push(t.clone());
+        Ok(Marked(vec![t]))
+    }
+}
+
+/// a statement visitor that overrides two callbacks only (default statement leaves in between)
+pub struct OutputOnly(pub Rec);
+impl Visit for OutputOnly {
+    type Output = Lst;
+    type Error = Injected;
+}
+impl VisitProgram for OutputOnly {
+    fn visit_output(&mut self, _: &Output) -> visit::Result<Self> {
+        self.0.hit("output".into())
+    }
+    fn visit_mutation_operator(&mut self, o: MutationOperator) -> visit::Result<Self> {
+        self.0.hit(format!("mutation:{:?}", o))
+    }
+}
+
 // ------------------------------------------------------------------------- model traversal
 
 #[derive(Clone, Debug)]
@@ -645,6 +746,74 @@ pub fn check_tree(ctx: &mut Ctx, prog: &Program, src: &str, exhaustive_k: bool, 
             }
         }
     }
+    // partial visitors: the log of a visitor that overrides only some leaves is the leaf log filtered
+    {
+        let (_, full) = walk(NK::None, prog, None);
+        let partial: [(&str, &[&str]); 3] =
+            [("LitOnly", &["lit:"]), ("OpsOnly", &["poetic:", "op:", "un:"]), ("IdOnly", &["pronoun", "simple:", "common:", "proper:"])];
+        for (which, prefixes) in partial.iter() {
+            let want: Vec<String> = full.iter().filter(|e| prefixes.iter().any(|p| e.starts_with(p))).cloned().collect();
+            let k = if want.is_empty() { None } else { Some(rng.range(1, want.len())) };
+            for fail in [None, k] {
+                ctx.eval();
+                let walked = mon::guarded(|| match *which {
+                    "LitOnly" => walk_with!(LitOnly, prog, fail),
+                    "OpsOnly" => walk_with!(OpsOnly, prog, fail),
+                    _ => walk_with!(IdOnly, prog, fail),
+                });
+                let (res, log) = match walked {
+                    Ok(x) => x,
+                    Err(p) => {
+                        ctx.panic_outcome("walk", &p, case(NK::None).with("visitor", Json::s(*which)));
+                        return;
+                    }
+                };
+                ctx.add("events_compared", log.len() as u64);
+                let ok = match fail {
+                    None => log == want && res.as_ref().ok().map(|l| &l.0) == Some(&want),
+                    Some(k) => log[..] == want[..k] && res == Err(Injected(k)),
+                };
+                if !ok {
+                    ctx.violation(
+                        &format!("partial_visitor_differs:{}", which),
+                        &format!(
+                            "a visitor overriding only {:?} (failure injected at {:?}) made {} callbacks and returned {:?}; the filtered leaf walk has {}",
+                            prefixes, fail, log.len(), res.map(|l| l.0.len()), want.len()
+                        ),
+                        case(NK::None).with("visitor", Json::s(*which)),
+                    );
+                    return;
+                }
+                ctx.count("partial_visitor_walks_matched");
+            }
+        }
+    }
+    // "starting from the default": with an output whose default is a visible marker, the folded result of a
+    // walk begins with that marker, and without the markers it is the sequence of callback results
+    {
+        let mut r = ExprVisitorRunner::with_inner(MarkedRecorder(Vec::new()));
+        ctx.eval();
+        let res = r.visit_program(prog);
+        let log = r.inner().0;
+        match res {
+            Ok(Marked(v)) => {
+                let stripped: Vec<&String> = v.iter().filter(|e| *e != "D").collect();
+                if v.first().map(|e| e.as_str()) != Some("D") || stripped != log.iter().collect::<Vec<_>>() {
+                    ctx.violation(
+                        "fold_does_not_start_from_default",
+                        &format!("with a marker as default value the walk returned {:?}; callbacks returned {:?}", &v[..v.len().min(12)], &log[..log.len().min(12)]),
+                        case(NK::None).with("visitor", Json::s("MarkedRecorder")),
+                    );
+                    return;
+                }
+                ctx.count("marked_default_walks_matched");
+            }
+            Err(_) => {
+                ctx.violation("fold_differs:marked", "a walk without injected failure returned an error", case(NK::None));
+                return;
+            }
+        }
+    }
     // statement level: the default VisitProgram traversal
     let mut want = Vec::new();
     for b in &model.blocks {
@@ -677,11 +846,59 @@ pub fn check_tree(ctx: &mut Ctx, prog: &Program, src: &str, exhaustive_k: bool, 
             return;
         }
     }
+    {
+        let part: Vec<String> = want.iter().filter(|e| *e == "output" || e.starts_with("mutation:")).cloned().collect();
+        let mut v = OutputOnly(Rec::default());
+        let res = v.visit_program(prog);
+        ctx.eval();
+        if v.0.log != part || res.as_ref().ok().map(|l| &l.0) != Some(&part) {
+            ctx.violation(
+                "partial_statement_visitor_differs",
+                &format!("a statement visitor overriding only output/mutation made {} callbacks, result {:?}; expected {}", v.0.log.len(), res.map(|l| l.0.len()), part.len()),
+                case(NK::None),
+            );
+            return;
+        }
+        ctx.count("partial_visitor_walks_matched");
+    }
     ctx.count("trees");
     ctx.nontrivial(hash_str(src));
 }
 
+/// `combine_all` itself (public): default . r1 . r2 ... rn, left to right; the first error is returned
+/// unchanged and nothing after it is evaluated.
+fn check_combine_all(ctx: &mut Ctx, rng: &mut crate::rng::Rng) {
+    let n = rng.range(0, 6);
+    let fail = if n > 0 && rng.coin() { Some(rng.below(n)) } else { None };
+    let pulled = std::cell::Cell::new(0usize);
+    let items = (0..n).map(|i| {
+        pulled.set(pulled.get() + 1);
+        if Some(i) == fail {
+            Err(Injected(i))
+        } else {
+            Ok(Marked(vec![format!("r{}", i)]))
+        }
+    });
+    ctx.eval();
+    let got: Result<Marked, Injected> = visit::combine_all(items);
+    let want: Result<Marked, Injected> = match fail {
+        Some(k) => Err(Injected(k)),
+        None => Ok(Marked(std::iter::once("D".to_string()).chain((0..n).map(|i| format!("r{}", i))).collect())),
+    };
+    let want_pulled = fail.map(|k| k + 1).unwrap_or(n);
+    if got != want || pulled.get() != want_pulled {
+        ctx.violation(
+            "combine_all_differs",
+            &format!("{} results, failure at {:?}: combine_all returned {:?} after evaluating {} of them; expected {:?} after {}", n, fail, got, pulled.get(), want, want_pulled),
+            Json::obj().with("n", Json::Num(n as f64)).with("fail_at", Json::s(format!("{:?}", fail))),
+        );
+        return;
+    }
+    ctx.count("combine_all_calls_matched");
+}
+
 pub fn run(ctx: &mut Ctx) {
+    ctx.cases("combine_all", 2_000, |ctx, rng, _| check_combine_all(ctx, rng));
     let n = ctx.size(8_000, 250_000);
     let exhaustive = true;
     ctx.cases("trees", n, |ctx, rng, _| {
